@@ -841,7 +841,16 @@ def check_c18(tier, seed, scale=1.0):
                         'pool_index': idx, 'seed': seed, 'tier': tier}, f, indent=1)
         print('VIOLATION property=%s replay=%s clause=%s value=%s' % (pid, path, clause, repr(v)[:80]))
         reported += 1
+    demos = hunt_demos(pid)
+    for name, rc, tail in demos:
+        if rc == 1:
+            print('VIOLATION property=%s replay=%s clause=HuntDemo (the recorded demonstration of a repaired defect fails again: %s)'
+                  % (pid, os.path.join(ROOT, 'hunts', name, 'demo.py'), tail[-300:].replace('\n', ' | ')))
+            reported += 1
+        elif rc != 0:
+            mach.append(('hunts/%s' % name, 'demo ended with status %s: %s' % (rc, tail[-600:])))
     cov = {'states': states, 'transitions': transitions, 'traces_validated_against_impl': validated,
+           'hunt_demos': {name: rc for name, rc, _ in demos},
            'evaluations': len(pool) * len(pool) + len(pool) + len(jsonbind.NON_JSON),
            'distinct_nontrivial': len(pool),
            'rule': 'value pool = structured universe over the colliding atoms (None, False, True, 0, 1, 1.0, -0.0, "", '
